@@ -683,6 +683,10 @@ func Check(c CheckConfig) int {
 	if len(a.viol)-knownMatched > 0 {
 		return 1
 	}
+	if a.probes["auth-path-hook-unavailable"] > 0 && c.Prop == "C01" {
+		fmt.Fprintln(os.Stderr, "keysim: INCONCLUSIVE: the authentication-path hook (tag verifauth) does not build against this tree: stub-leaf episodes had no C01 oracle")
+		return 2
+	}
 	if a.probes["hook:auth-not-visible"] > 0 {
 		fmt.Fprintln(os.Stderr, "keysim: INCONCLUSIVE: the snapshot hook cannot see the authentication path (no field named auth): state-based oracles were skipped")
 		return 2
